@@ -642,6 +642,7 @@ class Interp:
         self.loop_limit = 64
         self.genv_stack = [None]
         self.watch_cells = set()
+        self.watch_all = 0           # when n > 0: log every store through a reference, and plain stores in the n outermost frames
         self.regions = []
         self.loops = {}
         self.nloop = 0
@@ -787,14 +788,14 @@ class Interp:
         return cell, path
 
     def write_loc(self, st, cell, path, val):
-        if cell in self.watch_cells:
+        if cell in self.watch_cells or self.watch_all:
             st.event("store", cell, tuple(p if p[0] != "idx" else ("idx",) for p in path))
         st.store[cell] = self.update(st, st.store[cell], path, val)
 
     def write_place(self, st, frame, place, val):
         if not place["p"]:
             c0 = frame[place["l"]]
-            if c0 in self.watch_cells:
+            if c0 in self.watch_cells or (self.watch_all and len(self.call_stack) <= self.watch_all):
                 st.event("store", c0, ())
             st.store[c0] = val
             return
